@@ -38,7 +38,8 @@ class PrefixOracle(object):
         missing = len(full) - k
         parts = line.split(' ')
         if parts[:2] != ['ERR', 'NotEnoughData']:
-            return [('prefix-accepted:' + case['cls'] if parts[0] == 'OK' else 'prefix-error:' + case['cls'],
+            return [('prefix-accepted:' + case['cls'] if parts[0] == 'OK' else
+                     'prefix-error:{}:{}'.format(case['cls'], parts[1] if len(parts) > 1 else '?'),
                      '{}: prefix of {} of {} bytes of {} gives {}'.format(case['cls'], k, len(full), hx(full), line[:120]))]
         try:
             m = int(parts[2])
@@ -131,7 +132,9 @@ def reader_case(case):
     out, trace, err = reader_loop(cls, stream, chunks)
     name = case['cls']
     if err:
-        return [('reader-error:' + name, '{}: reader failed with {} on {} records'.format(name, err, len(records)))]
+        kind = err.split(' ')[1] if err.startswith('ERR ') and len(err.split(' ')) > 1 else err.split(' ')[0]
+        return [('reader-error:{}:{}'.format(name, kind),
+                 '{}: reader failed with {} on {} records'.format(name, err, len(records)))]
     ends = []
     total = 0
     for r in records:
